@@ -121,6 +121,21 @@ def check_equal(ctx, inst, ty=None):
     ident = {"Token": "contract_addr", "NativeToken": "denom"}
     good = True
     true_regions = set()
+    # `self == other` with the *derived* PartialEq of the enum: equality of variant and of every field
+    exs_ = common.exit_sites(P, f)
+    if len(exs_) == 1 and exs_[0][3][0] == "call" and isinstance(exs_[0][3][3], str) and common.cmp_kind(exs_[0][3][3]) == "eq" and len(exs_[0][3][4]) == 2:
+        cal = exs_[0][3][3]
+        gp = generic_path(cal)
+        tyrx = re.escape(ty)
+        is_peq = re.search(r"<%s as (core|std)::cmp::PartialEq>::eq$" % tyrx, gp) or \
+            re.search(r"cmp::impls::<impl (core|std)::cmp::PartialEq<&('\w+ )?(mut )?B> for &('\w+ )?(mut )?A>::eq$", cal) or \
+            re.search(r"<&('\w+ )?%s as (core|std)::cmp::PartialEq<&('\w+ )?%s>>::eq$" % (tyrx, tyrx), gp)
+        impls = [i for i in P.impls if i.get("trait", "").endswith("cmp::PartialEq") and i["self"] == ty]
+        got = [set(ctx.roots(x)) for x in exs_[0][3][4]]
+        if is_peq and len(impls) == 1 and impls[0]["derived"] and sorted(map(sorted, got)) == sorted([[P_(f, 0)], [P_(f, 1)]]) \
+                and not cond_strings(ctx, common.control_conditions(P, f, exs_[0][0])):
+            inst.site("%s is the derived equality of %s (variant and identifier)" % (f.path, ty.split("::")[-1]))
+            return
     for b, v, cs in table_with_cases(ctx, f):
         va = [x for x in ("Token", "NativeToken") if "%s in ['%s']" % (a, x) in cs]
         vb = [x for x in ("Token", "NativeToken") if "%s in ['%s']" % (b_, x) in cs]
